@@ -13,6 +13,7 @@ inductive Role where
   | tmp (of : String)            -- .goit/tmp-branch, tmp-HEAD, tmp-index, config.tmp
   | logHead | logBranch (name : Bytes)
   | work (path : Bytes)
+  | repoDir                      -- the directory `.goit` itself (the target of `init`'s final rename)
 deriving DecidableEq, Repr
 
 inductive E where
@@ -56,6 +57,17 @@ def reset (b id logLine : Bytes) (indexFile : Option Bytes) (files : List (Bytes
 def branchRename (old new id : Bytes) (logs : List E) : List E :=
   setBranch new id ++ setHead new ++ [.remove (.branch old)] ++ logs
 
+/-- `branch -d`: the ref file, then its log -/
+def branchDelete (old : Bytes) : List E := [.remove (.branch old), .remove (.logBranch old)]
+/-- `rm`: for every removed tracked file (present on disk) the work file is removed, then the index rewritten -/
+def rmFiles (paths : List (Bytes × Bytes)) : List E := (paths.map fun p => E.remove (.work p.1) :: setIndex p.2).flatten
+/-- `restore --staged`: one index rewrite per entry that changes -/
+def restoreStaged (indexFiles : List Bytes) : List E := (indexFiles.map setIndex).flatten
+/-- `init`: everything is built inside `.goit.tmp` (work-side paths), the rename to `.goit` comes last -/
+def init : List E :=
+  [.create (.work (asc ".goit.tmp/config")), .create (.work (asc ".goit.tmp/HEAD")),
+   .write (.work (asc ".goit.tmp/HEAD")) (asc "ref: refs/heads/main"), .rename (.work (asc ".goit.tmp")) .repoDir]
+
 /-! ### a file-level state on which prefixes are interpreted -/
 
 abbrev FS := Role → Option Bytes
@@ -81,7 +93,7 @@ def fault (s : FS) (es : List E) (k : Option Nat) : Bool × FS :=
 /-- canonical shape compared with the traced system calls (mkdirs dropped, payloads dropped) -/
 def roleName : Role → String
   | .object _ => "object" | .branch _ => "branch" | .head => "HEAD" | .index => "index" | .config => "config"
-  | .tmp t => "tmp-" ++ t | .logHead => "logHEAD" | .logBranch _ => "logbranch" | .work _ => "work"
+  | .tmp t => "tmp-" ++ t | .logHead => "logHEAD" | .logBranch _ => "logbranch" | .work _ => "work" | .repoDir => ".goit"
 
 def shape1 : E → String
   | .create r => "create:" ++ roleName r
